@@ -123,7 +123,8 @@ Theorem C14_sets j : (j < m)%nat -> (1 <= k)%nat -> let q := nth j row 0 - 1 in 
   (exists l, (1 <= l)%nat /\ (l <= k)%nat /\ q <= pst l /\ (forall l', (1 <= l')%nat -> (l' < l)%nat -> pst l' < q) /\
              (tauof tau i l <= Vat i j)%Q /\ (nth j srow 0%Q <= Vat i j)%Q /\
              (byq = false -> nth j srow 0%Q = tauof tau i l) /\
-             (byq = true -> nth j srow 0%Q = valp fixer V rk i (pst l) /\ forall q', 1 <= q' -> q' <= pst l -> (valp fixer V rk i (pst l) <= valp fixer V rk i q')%Q)) \/
+             (byq = true -> nth j srow 0%Q = valp fixer V rk i (pst l) /\ forall q', 1 <= q' -> q' <= pst l -> (valp fixer V rk i (pst l) <= valp fixer V rk i q')%Q) /\
+             (forall l', (1 <= l')%nat -> (l' < l)%nat -> (Vat i j < tauof tau i l')%Q)) \/
   (pst k < q /\ nth j srow 0%Q = init /\ (Vat i j < tauof tau i k)%Q).
 Proof.
   intros Hj Hk q Hq pst. destruct row_ok as [Hl Hs].
@@ -140,11 +141,12 @@ Proof.
   assert (Eidx : idx rk q = j) by (unfold idx; rewrite Ea; apply Nat2Z.id).
   assert (Eval : valp fixer V rk i q = Vat i j) by (unfold valp, Vat; rewrite Ea; reflexivity).
   rewrite srow_eq.
-  destruct (sim_sets fixer V rk i (Z.of_nat m) (tauof tau i) byq init k HmZ Hlen Hnd Hrg agent_mono Htaui q Hq Hqm Hk) as [[l [A [B [C [D [E [F [G H]]]]]]]]|[A [B C]]].
+  destruct (sim_sets fixer V rk i (Z.of_nat m) (tauof tau i) byq init k HmZ Hlen Hnd Hrg agent_mono Htaui q Hq Hqm Hk) as [[l [A [B [C [D [E [F [G [H H']]]]]]]]]|[A [B C]]].
   - left. exists l. rewrite Eidx in E. rewrite Eval in F, G. split; [exact A|]. split; [exact B|]. split; [exact C|]. split; [exact D|].
-    split; [exact F|]. split; [rewrite E; exact G|]. split.
+    split; [exact F|]. split; [rewrite E; exact G|]. split; [|split].
     + intros Hb. rewrite E. unfold vlev. rewrite Hb. reflexivity.
     + intros Hb. rewrite E. exact (H Hb).
+    + intros l' L1 L2. rewrite <- Eval. exact (H' l' L1 L2).
   - right. rewrite Eidx in B. rewrite Eval in C. split; [exact A|]. split; [exact B|exact C].
 Qed.
 End OneAgent.
